@@ -51,7 +51,7 @@ CHECKS = {
    technique="deterministic simulation: seeded schedules over the overlay-instrumented CRDT resource and net/rpc on a simulated network; per-read attribution oracles and bounded-convergence verdict; shrunk replay files",
    ref="6 (C13)"),
  "C11": dict(
-   text="Seeded search over 2-5 nodes each owning the real NewTwoPC resource, with archetypes running concurrent increment sections (some failing after the write), over three transports with the same workload: the in-process LocalReplicaHandle, a simulator message transport calling the peer's exported Receive with drawn delay, loss, duplication and reply loss, and the real RPCReplicaHandle (net/rpc + gob) on the simulated network; a minority may be cut off for a window. Invariants at every scheduling point: versions never decrease, one value per version across replicas, a replica that has processed a proposer's Abort does not hold that proposer's older pre-commit. At the end: every programmed increment committed within a simulated-time bound (progress), committed increments read 0..K-1 each once (single copy, no lost update), no replica still holds the pre-commit of a proposal that was given up. Two recorded known findings (no retransmission of a lost Commit/Abort once the proposer has moved on) are attributed only when the transport actually dropped such a message to that replica.",
+   text="Seeded search over 2-5 nodes each owning the real NewTwoPC resource, with archetypes running concurrent increment sections (some failing after the write), over three transports with the same workload: the in-process LocalReplicaHandle, a simulator message transport calling the peer's exported Receive with drawn delay, loss, duplication and reply loss, and the real RPCReplicaHandle (net/rpc + gob) on the simulated network; a minority may be cut off for a window. Invariants at every scheduling point: versions never decrease, one value per version across replicas, a replica that has processed a proposer's Abort does not hold that proposer's older pre-commit. At the end: every programmed increment committed within a simulated-time bound (progress), committed increments read 0..K-1 each once (single copy, no lost update), no replica still holds the pre-commit of a proposal that was given up. Three recorded known findings with one root cause (no retransmission of a lost Commit/Abort once the proposer has moved on: a stuck writer, a kept pre-commit, and two winners of one version after a replica that missed a Commit votes again) are attributed only when the transport actually dropped such a message.",
    note="Trusted: overlay instrumentation R1-R7 (R7: strictly increasing time.Now under the frozen fake clock); replica state read through an overlay-added accessor at scheduling points; cut-off windows <= 2 s because the uncapped exponential back-off otherwise exceeds any fixed progress bound.",
    technique="deterministic simulation: seeded schedules, message delay/loss/duplication and minority cut-off over the overlay-instrumented 2PC resource on three transports; invariant checks at every step and history oracles; shrunk replay files",
    ref="6 (C11)"),
